@@ -245,6 +245,40 @@ def run_c04(ctx, q, b, stats):
                            opts=dict(n=2 if q else 6, clients=4 if q else 8, reqs=25 if q else 60, keys=6, maxbatch=4, rounds=8 if q else 20, maxreads=60 if q else 25,
                                      cfgs='plain/prefix/memtree+val' if not q else 'plain/prefix'),
                            selftest=True, timeout=7200)
+    if not q:
+        _race_leg(ctx)
+
+
+def _race_leg(ctx):
+    """Thorough tier: the concurrent recording once more with the Go race detector. Race reports inside /repo code are copied
+    into the evidence (race_reports); they are neither a verdict nor a failure - only a reply that disagrees with the
+    specification is (DESIGN 4, C04)."""
+    import glob
+    try:
+        rb = vlib.build(DRIVER, race=True)
+    except vlib.Broken as e:
+        ctx.notes.append('race-detector build not available, leg skipped: %s' % str(e)[:200])
+        return
+    logp = os.path.join(ctx.scratch, 'race-report')
+    os.environ['GORACE'] = 'log_path=%s exitcode=0 halt_on_error=0' % logp
+    try:
+        ctx.validate_recording(rb, 'StateStore_Trace', 'StateStore_TraceBus.cfg', recorder='bus', dfs=True,
+                               opts=dict(n=2, clients=6, reqs=30, keys=6, maxbatch=4, rounds=10, maxreads=20, cfgs='prefix/memtree+val'),
+                               selftest=False, timeout=7200)
+    finally:
+        os.environ.pop('GORACE', None)
+    reports = []
+    for f in sorted(glob.glob(logp + '*')):
+        for blk in open(f, errors='replace').read().split('==================')[:40]:
+            if 'DATA RACE' in blk:
+                lines = [l.strip() for l in blk.splitlines() if l.strip()]
+                where = [l for l in lines if 'github.com/33cn/chain33/' in l][:2]
+                reports.append(dict(kind=lines[0][:80], where=where))
+    uniq = {}
+    for r in reports:
+        uniq.setdefault(json.dumps(r, sort_keys=True), r)
+    ctx.extra['race_reports'] = list(uniq.values())[:20]
+    ctx.extra['race_reports_total'] = len(reports)
 
 
 import vlib  # noqa: E402
